@@ -352,16 +352,15 @@ def Ca.process (s : Ca) : Cmd → Except Err (List Ev)
     | none => .error .unknownChild
     | some c => s.childCertifyEvents ch c.res (c.nameInParent childRcn) ki limit na
   | .childRevokeKey ch childRcn ki =>
-    -- certauth.rs:1429: the class test is made on the *child's* name …
-    if !(get s.classes childRcn).isSome then .ok []
-    else
-      match get s.children ch with
-      | none => .error .unknownChild
-      | some c =>
-        -- … and only then is the name translated (certauth.rs:1439)
-        let myRcn := c.nameInParent childRcn
-        if !c.isIssued ki then .error .noIssuedCert
-        else .ok [.childKeyRevoked ch myRcn ki, .childCerts myRcn { removed := [ki] }]
+    -- certauth.rs:1429-1447 after fix 43d7eca0: the child's name is translated first, the class
+    -- test is made on the parent's own name
+    match get s.children ch with
+    | none => .error .unknownChild
+    | some c =>
+      let myRcn := c.nameInParent childRcn
+      if !(get s.classes myRcn).isSome then .ok []
+      else if !c.isIssued ki then .error .noIssuedCert
+      else .ok [.childKeyRevoked ch myRcn ki, .childCerts myRcn { removed := [ki] }]
   | .childRemove ch =>
     match get s.children ch with
     | none => .error .unknownChild
